@@ -200,6 +200,13 @@ def f13_ambient(ctx, repo):
             fq = _func_qual_of(mod, node)
             key = (rel, fq, what)
             ok = key in AMBIENT_AUDIT or (rel, "*", "*") in AMBIENT_AUDIT
+            if not ok:
+                # the audited read moved into another function of the same module (extract function): same module, same source
+                alt = [k for k in AMBIENT_AUDIT if k[0] == rel and k[2] == what]
+                here = [1 for n2, w2 in _ambient_reads(mod) if w2 == what]
+                if alt and len(here) <= len(alt):
+                    key = alt[0]
+                    ok = True
             ctx.ob("F13a", f"{rel}:{fq}", what, ok, ("audited: " + AMBIENT_AUDIT.get(key, "")) if ok else "new ambient input (time/env/cwd/random) in library code")
     # timestampNow callers
     callers = []
